@@ -10,9 +10,9 @@ import (
 	"encoding/json"
 	"flag"
 	"fmt"
+	"math"
 	"net/http"
 	"net/url"
-	"math"
 	"os"
 	"path/filepath"
 	"sort"
@@ -39,7 +39,7 @@ type routeSpec struct {
 
 type paramDef struct {
 	Loc, Name, Tag string
-	Array         bool
+	Array          bool
 }
 
 type ptypeDef struct {
@@ -143,7 +143,6 @@ func genQHParams(rng *PRNG, comps map[string]any, used map[string]bool) ([]any, 
 	}
 	return ps, defs
 }
-
 
 type schemeDef struct {
 	Kind string // bearer | header | query
@@ -799,7 +798,6 @@ func genRequestPaths(rng *PRNG, rs routeSpec, maxDepth, randomDeep int) []string
 	out = append(out, specials...)
 	return out
 }
-
 
 // kfSecSpec: fixed witness specs of the recorded C11 findings (run first in every sec run):
 // a requirement naming two schemes, an anonymous alternative {}, and schemes of kinds goag
